@@ -286,7 +286,7 @@ def soak(spec, ctx, cases):
 
 class C17(flow.Spec):
     prop = 'C17'
-    props_files = ['theories/Props/C17.v', 'theories/Props/C17_examples.v', 'theories/Props/C17_trans.v']
+    props_files = ['theories/Props/C17.v', 'theories/Props/C17_examples.v', 'theories/Props/C17_trans.v', 'theories/Props/C17_trans_examples.v']
     model_targets = ['theories/Tty/Vt.vo']
     pkg = 'device/tty'
     harness = [os.path.join(H, 'zz_verif_c17_test.go')]
